@@ -18,6 +18,7 @@
   the generated tables as they are; `application_dtor_guard_is_necessary` restates the pre-fix counterexample.
 -/
 import IcingaProofs.C19.Lemmas
+import IcingaProofs.C19.Computational
 import IcingaProofs.C19.Tables
 import IcingaModel.C19.Spec
 
@@ -34,17 +35,19 @@ open Icinga.Gen
     the program sandboxed ends — with a value or with an error — in an environment whose globals,
     constants, config objects, files and registries are exactly the initial ones. -/
 theorem sandbox_noninterference (cfg : Cfg)
-    (hg : ∀ k, mutating k = true → cfg.guard k = true) (hct : ∀ t, cfg.ctorEffect t = false) (hcc : cfg.callCheck = true)
+    (hg : ∀ k, mutating k = true → cfg.guard k = true) (hct : ∀ t, cfg.ctorEffect t = false) (hcc : cfg.callCheck = true) (hcb : CbChecks cfg)
     (hp : SafeNativesPure cfg) (hset : RefSetUnsafe cfg) (fuel : Nat) (e : Expr) (env : Env) :
     (eval cfg true fuel e env).2.prot = env.prot :=
-  (eval_pres (R := protEq) cfg hcc frameOk_protEq (invokeOk_protEq cfg hp hset) (Or.inl ⟨hg, hct⟩) fuel e).h env
+  (eval_pres (R := protEq) cfg hcc hcb (logOk_protEq cfg) frameOk_protEq (invokeOk_protEq cfg hp hset)
+    (readOk_protEq cfg _) (readOk_protEq cfg _) (readOk_protEq cfg _) (Or.inl ⟨hg, hct⟩) fuel e).h env
 
 /-- **sandbox_only_safe_calls.**  With the call check in place, whatever the guard table says: every
     function that a sandboxed evaluation actually invokes (ghost call log) is a native flagged
     side-effect free — never a non-safe native, never a script function. -/
-theorem sandbox_only_safe_calls (cfg : Cfg) (hcc : cfg.callCheck = true) (fuel : Nat) (e : Expr) (env : Env) :
+theorem sandbox_only_safe_calls (cfg : Cfg) (hcc : cfg.callCheck = true) (hcb : CbChecks cfg) (fuel : Nat) (e : Expr) (env : Env) :
     ∀ c ∈ (eval cfg true fuel e env).2.calls, c ∈ env.calls ∨ safeCallee cfg c = true :=
-  (eval_pres (R := callsOk cfg) cfg hcc (frameOk_callsOk cfg) (invokeOk_callsOk cfg)
+  (eval_pres (R := callsOk cfg) cfg hcc hcb (logOk_callsOk cfg) (frameOk_callsOk cfg) (invokeOk_callsOk cfg)
+    (readOk_callsOk cfg _) (readOk_callsOk cfg _) (readOk_callsOk cfg _)
     (Or.inr (protOk_callsOk cfg)) fuel e).h env
 
 /-- **unsafe_native_call_rejected.**  Calling a native that is not flagged side-effect free is refused
@@ -129,11 +132,11 @@ theorem sandbox_hidden_fields_import (cfg : Cfg) (hf : cfg.fieldCheck = true) (h
     model can produce for a sandboxed program satisfies the specification predicate that the driver
     evaluates on the implementation's observations. -/
 theorem model_obs_meets_spec (cfg : Cfg)
-    (hg : ∀ k, mutating k = true → cfg.guard k = true) (hct : ∀ t, cfg.ctorEffect t = false) (hcc : cfg.callCheck = true)
+    (hg : ∀ k, mutating k = true → cfg.guard k = true) (hct : ∀ t, cfg.ctorEffect t = false) (hcc : cfg.callCheck = true) (hcb : CbChecks cfg)
     (hp : SafeNativesPure cfg) (hset : RefSetUnsafe cfg) (fuel : Nat) (e : Expr) (env : Env) :
     specStep (modelObs cfg .program false fuel e env) = none := by
-  have h := sandbox_noninterference cfg hg hct hcc hp hset fuel e env
-  have hc := sandbox_only_safe_calls cfg hcc fuel e env
+  have h := sandbox_noninterference cfg hg hct hcc hcb hp hset fuel e env
+  have hc := sandbox_only_safe_calls cfg hcc hcb fuel e env
   simp [specStep, modelObs, observe, h]
   intro x hx hnx
   rcases hc x hx with h' | h'
@@ -156,25 +159,25 @@ theorem model_native_obs_meets_spec (cfg : Cfg) (hcc : cfg.callCheck = true) (na
     exactly as it was: each filter runs in a frame of its own that is sandboxed, errors are swallowed, nothing is
     rolled back and nothing needs to be. -/
 theorem push_event_noninterference (cfg : Cfg)
-    (hg : ∀ k, mutating k = true → cfg.guard k = true) (hct : ∀ t, cfg.ctorEffect t = false) (hcc : cfg.callCheck = true)
+    (hg : ∀ k, mutating k = true → cfg.guard k = true) (hct : ∀ t, cfg.ctorEffect t = false) (hcc : cfg.callCheck = true) (hcb : CbChecks cfg)
     (hp : SafeNativesPure cfg) (hset : RefSetUnsafe cfg) (fuel : Nat) :
     ∀ (filters : List Expr) (env : Env), (pushEvent cfg fuel filters env).2.prot = env.prot
   | [], env => rfl
   | f :: fs, env => by
     simp only [pushEvent]
-    rw [push_event_noninterference cfg hg hct hcc hp hset fuel fs]
-    exact sandbox_noninterference cfg hg hct hcc hp hset fuel f { env with locals := [] }
+    rw [push_event_noninterference cfg hg hct hcc hcb hp hset fuel fs]
+    exact sandbox_noninterference cfg hg hct hcc hcb hp hset fuel f { env with locals := [] }
 
 /-- **push_event_only_safe_calls.**  … and every function invoked on the way is a native flagged side-effect free. -/
-theorem push_event_only_safe_calls (cfg : Cfg) (hcc : cfg.callCheck = true) (fuel : Nat) :
+theorem push_event_only_safe_calls (cfg : Cfg) (hcc : cfg.callCheck = true) (hcb : CbChecks cfg) (fuel : Nat) :
     ∀ (filters : List Expr) (env : Env),
       ∀ c ∈ (pushEvent cfg fuel filters env).2.calls, c ∈ env.calls ∨ safeCallee cfg c = true
   | [], env => fun c hc => Or.inl hc
   | f :: fs, env => by
     intro c hc
     simp only [pushEvent] at hc
-    rcases push_event_only_safe_calls cfg hcc fuel fs _ c hc with h | h
-    · exact sandbox_only_safe_calls cfg hcc fuel f { env with locals := [] } c h
+    rcases push_event_only_safe_calls cfg hcc hcb fuel fs _ c hc with h | h
+    · exact sandbox_only_safe_calls cfg hcc hcb fuel f { env with locals := [] } c h
     · exact Or.inr h
 
 /-- **push_event_delivers_only_on_value.**  A subscriber receives the event only if its own filter evaluated to a
@@ -195,11 +198,11 @@ theorem push_event_delivers_only_on_value (cfg : Cfg) (fuel : Nat) :
 /-- **model_events_obs_meets_spec.**  The observation the model produces for one event and any list of filters
     satisfies the specification predicate (the `E` lines of the harness). -/
 theorem model_events_obs_meets_spec (cfg : Cfg)
-    (hg : ∀ k, mutating k = true → cfg.guard k = true) (hct : ∀ t, cfg.ctorEffect t = false) (hcc : cfg.callCheck = true)
+    (hg : ∀ k, mutating k = true → cfg.guard k = true) (hct : ∀ t, cfg.ctorEffect t = false) (hcc : cfg.callCheck = true) (hcb : CbChecks cfg)
     (hp : SafeNativesPure cfg) (hset : RefSetUnsafe cfg) (fuel : Nat) (filters : List Expr) (env : Env) :
     specStep (modelEventsObs cfg fuel filters env) = none := by
-  have h := push_event_noninterference cfg hg hct hcc hp hset fuel filters env
-  have hc := push_event_only_safe_calls cfg hcc fuel filters env
+  have h := push_event_noninterference cfg hg hct hcc hcb hp hset fuel filters env
+  have hc := push_event_only_safe_calls cfg hcc hcb fuel filters env
   have hd := push_event_delivers_only_on_value cfg fuel filters env
   have h1 : ((pushEvent cfg fuel filters env).2.calls.any fun c => !(env.calls.contains c) && !safeCallee cfg c) = false := by
     rw [List.any_eq_false]
@@ -234,22 +237,22 @@ def Op.obs (cfg : Cfg) (fuel : Nat) : Op → Obs
     the flag, events with any number of filters; any start environments), the specification predicate accepts the
     trace of the model's observations. -/
 theorem model_trace_meets_spec (cfg : Cfg)
-    (hg : ∀ k, mutating k = true → cfg.guard k = true) (hct : ∀ t, cfg.ctorEffect t = false) (hcc : cfg.callCheck = true)
+    (hg : ∀ k, mutating k = true → cfg.guard k = true) (hct : ∀ t, cfg.ctorEffect t = false) (hcc : cfg.callCheck = true) (hcb : CbChecks cfg)
     (hp : SafeNativesPure cfg) (hset : RefSetUnsafe cfg) (fuel : Nat) :
     ∀ ops : List Op, (∀ op ∈ ops, ∀ name args env, op = .unsafeNative name args env →
         ∃ f, cfg.native name = some f ∧ f.safe = false) →
       specTrace (ops.map (Op.obs cfg fuel)) = none
   | [], _ => rfl
   | op :: rest, hops => by
-    have ih := model_trace_meets_spec cfg hg hct hcc hp hset fuel rest
+    have ih := model_trace_meets_spec cfg hg hct hcc hcb hp hset fuel rest
       (fun o ho => hops o (List.mem_cons_of_mem _ ho))
     have hstep : specStep (Op.obs cfg fuel op) = none := by
       cases op with
-      | program e env => exact model_obs_meets_spec cfg hg hct hcc hp hset fuel e env
+      | program e env => exact model_obs_meets_spec cfg hg hct hcc hcb hp hset fuel e env
       | unsafeNative name args env =>
         obtain ⟨f, hn, hs⟩ := hops _ (List.mem_cons_self) name args env rfl
         exact model_native_obs_meets_spec cfg hcc name f hn hs args fuel env
-      | events filters env => exact model_events_obs_meets_spec cfg hg hct hcc hp hset fuel filters env
+      | events filters env => exact model_events_obs_meets_spec cfg hg hct hcc hcb hp hset fuel filters env
     simp only [List.map_cons, specTrace, hstep, ih]
 
 /-! ## The tables generated from the source on this run -/
@@ -281,6 +284,16 @@ theorem import_reads_respect_sandbox : SandboxGuards.importReadSandboxed = true 
     callback's own flag under `Sandboxed` first (array-script.cpp:83-212). -/
 theorem safe_callback_invokers_checked :
     ∀ r ∈ SandboxGuards.callbackInvokers, r.2.1 = true → r.2.2 = true := by decide
+
+/-- **callback_checks_present** (array-script.cpp:83-212).  Every higher-order native the model interprets
+    (`Array#sort/map/reduce/filter/any/all`) is found by the translator and its body tests the callback's flag under
+    `Sandboxed` before invoking it — so the hypothesis `CbChecks` of the interpreter theorems holds of the model configured
+    by the generated tables. -/
+theorem callback_checks_present (native : String → Option Native) (hidden : String → String → Bool) :
+    CbChecks (genCfg native hidden) := by
+  have h : ∀ n ∈ hofNames, genCbCheck n = true := by decide
+  intro n hn
+  exact h n hn
 
 /-- No `GetReference` (the l-value path) can write in a sandboxed frame
     (IndexerExpression::GetReference forces `init_dict = false`, expression.cpp:758-759). -/
@@ -323,7 +336,7 @@ theorem sandbox_noninterference_repaired (native : String → Option Native) (hi
     (hp : SafeNativesPure { genCfg native hidden with guard := repairedGuard })
     (fuel : Nat) (e : Expr) (env : Env) :
     (eval { genCfg native hidden with guard := repairedGuard } true fuel e env).2.prot = env.prot := by
-  apply sandbox_noninterference _ _ (fun _ => rfl) _ hp
+  apply sandbox_noninterference _ _ (fun _ => rfl) _ (callback_checks_present _ _) hp
   · intro k hk
     by_cases hks : k = "SetConstExpression"
     · simp [repairedGuard, hks]
@@ -356,7 +369,7 @@ theorem sandbox_noninterference_pinned (native : String → Option Native) (hidd
     (hp : SafeNativesPure (genCfg native hidden)) (fuel : Nat) (e : Expr) (env : Env) :
     (eval (genCfg native hidden) true fuel e env).2.prot = env.prot := by
   refine sandbox_noninterference (genCfg native hidden) all_mutating_nodes_guarded
-    (application_dtor_keeps_singleton.2 native hidden) call_and_field_checks_present.1 hp ?_ fuel e env
+    (application_dtor_keeps_singleton.2 native hidden) call_and_field_checks_present.1 (callback_checks_present _ _) hp ?_ fuel e env
   intro f hf
   have h := hfl "Reference#set" f hf
   rw [reference_checks_present.2.2.1] at h
@@ -406,7 +419,7 @@ theorem driver_model_trace_meets_spec (hidden : String → String → Bool) (fue
     specTrace (ops.map (Op.obs (genCfg driverNative hidden) fuel)) = none := by
   obtain ⟨hfl, hp⟩ := driver_natives_meet_hypotheses hidden
   refine model_trace_meets_spec (genCfg driverNative hidden)
-    all_mutating_nodes_guarded (application_dtor_keeps_singleton.2 driverNative hidden) call_and_field_checks_present.1 hp ?_ fuel ops ?_
+    all_mutating_nodes_guarded (application_dtor_keeps_singleton.2 driverNative hidden) call_and_field_checks_present.1 (callback_checks_present _ _) hp ?_ fuel ops ?_
   · intro f hf
     have h := hfl "Reference#set" f hf
     rw [reference_checks_present.2.2.1] at h
@@ -433,6 +446,119 @@ theorem setconst_guard_is_necessary :
   revert this
   decide
 -- END F-C19 fixed
+
+
+/-! ## Purely computational expressions and computed callees -/
+
+/-- **computational_expressions_pure.**  An expression built from operators, literals, reads, array literals, blocks,
+    conditionals, throw and try/except alone — no assignment node, no call node, no loop, no config statement
+    (`Computational`) — leaves globals, constants, config objects, files and registries exactly as they were and invokes
+    nothing, for EVERY configuration (no guard, no call check, no assumption about natives is needed), every fuel and
+    environment, sandboxed or not: the operator nodes (expression.cpp:193-447) only combine the values of their operands
+    through the free functions of value-operators.cpp. -/
+theorem computational_expressions_pure (cfg : Cfg) (sb : Bool) (fuel : Nat) (e : Expr) (env : Env) (hc : Computational e) :
+    (eval cfg sb fuel e env).2.prot = env.prot ∧ (eval cfg sb fuel e env).2.calls = env.calls :=
+  (eval_pres_computational (R := sameState) cfg sb frameOk_sameState (readOk_sameState cfg _) (readOk_sameState cfg _) fuel e hc).h env
+
+/-- **computational_obs_meets_spec.**  Hence the observation the model produces for a computational program satisfies
+    the specification predicate UNCONDITIONALLY — whatever the guard table, the checks and the natives are. -/
+theorem computational_obs_meets_spec (cfg : Cfg) (fuel : Nat) (e : Expr) (env : Env) (hc : Computational e) :
+    specStep (modelObs cfg .program false fuel e env) = none := by
+  obtain ⟨hp, hcl⟩ := computational_expressions_pure cfg true fuel e env hc
+  simp [specStep, modelObs, observe, hp, hcl]
+  intro x hx hnx
+  exact absurd hx hnx
+
+/-- **computed_callee_checked** (expression.cpp:454-461, :478-482).  The whitelist test does not depend on HOW the callee
+    was obtained: whatever expression `f` computes the function value — `(a || b)`, `(c && d)`, a call that returns a
+    function, … — if it evaluates to a native without the side-effect-free flag or to a script function, the call
+    `f(args)` in a sandboxed frame is refused with the sandbox error, no argument is evaluated, nothing is invoked, and
+    the state is exactly the one reached after evaluating `f`. -/
+theorem computed_callee_checked (cfg : Cfg) (hcc : cfg.callCheck = true) (n : Nat) (f : Expr) (args : List Expr)
+    (env env1 : Env) (vf : Value) (h1 : eval cfg true n f env = (.ok (vf, .ok), env1))
+    (hu : (∃ name nf, vf = .fn name ∧ cfg.native name = some nf ∧ nf.safe = false) ∨ (∃ id, vf = .closure id)) :
+    outcomeOf (eval cfg true (n + 1) (.call f args) env).1 = .sandbox ∧
+    ((eval cfg true (n + 1) (.call f args) env).2 = env ∨ (eval cfg true (n + 1) (.call f args) env).2 = env1) := by
+  by_cases hg : cfg.guard "FunctionCallExpression" = true
+  · simp [eval, guardCheck, Expr.kind, hg, bind, M.bind, M.fail, outcomeOf]
+  · rcases hu with ⟨name, nf, rfl, hn, hs⟩ | ⟨id, rfl⟩
+    · simp [eval, guardCheck, Expr.kind, hg, bind, M.bind, M.fail, outcomeOf, evalNode, chk, pure, M.pure, h1,
+        callValue, hn, hs, hcc]
+    · simp [eval, guardCheck, Expr.kind, hg, bind, M.bind, M.fail, outcomeOf, evalNode, chk, pure, M.pure, h1,
+        callValue, hcc]
+
+
+/-- **unsafe_callback_rejected** (array-script.cpp:83-84,111-112,134-135,153-154,177-178,198-199).  A whitelisted
+    higher-order native whose body has the callback test, handed a native WITHOUT the side-effect-free flag or a script
+    function in a sandboxed frame, raises the sandbox error; the only new entry of the call log is the higher-order
+    native itself and the protected state is untouched. -/
+theorem unsafe_callback_rejected (cfg : Cfg) (ev : Expr → M Out) (name : String) (hcb : cfg.cbCheck name = true)
+    (l : List String) (cbv : Value) (rest : List Value) (env : Env)
+    (hu : (∃ cb g, cbv = .fn cb ∧ cfg.native cb = some g ∧ g.safe = false) ∨ (∃ id, cbv = .closure id)) :
+    outcomeOf (hofInvoke cfg true ev name (.arr l) (cbv :: rest) env).1 = .sandbox ∧
+    (hofInvoke cfg true ev name (.arr l) (cbv :: rest) env).2 = { env with calls := .native name :: env.calls } := by
+  rcases hu with ⟨cb, g, rfl, hg, hs⟩ | ⟨id, rfl⟩
+  · simp [hofInvoke, bind, M.bind, M.modify, hg, hs, hcb, M.fail, outcomeOf]
+  · simp [hofInvoke, bind, M.bind, M.modify, hcb, M.fail, outcomeOf]
+
+
+/-- **pinned_secrets_unreadable.**  The attributes the property names outright (`secretAttrs`: passwords, password hash,
+    ticket salt — pinned in Spec.lean, not read from the implementation): in every configuration whose no_user_view
+    table covers them and whose field check is in place, the observation of a sandboxed read of one of them on any live
+    object satisfies the specification predicate, which judges such a read as a read of a hidden field WHATEVER flag the
+    implementation reports (the driver sets `flagged := nuv || isSecretAttr type field`). -/
+theorem pinned_secrets_unreadable (cfg : Cfg) (hf : cfg.fieldCheck = true)
+    (hsec : ∀ p ∈ secretAttrs, cfg.hidden p.1 p.2 = true)
+    (name field : String) (o : Obj) (v : Value) (env : Env)
+    (ho : lookup name env.prot.objects = some o) (hv : lookup field o.attrs = some v)
+    (hs : isSecretAttr o.type field = true) :
+    specStep { kind := .field, flagged := isSecretAttr o.type field,
+               outcome := outcomeOf (getField cfg true (.obj name) field env).1,
+               changed := decide ((getField cfg true (.obj name) field env).2.prot ≠ env.prot), leak := false } = none := by
+  have hh : cfg.hidden o.type field = true := hsec (o.type, field) (by simpa [isSecretAttr] using hs)
+  rw [sandbox_hidden_fields cfg hf name field o v env ho hv hh]
+  simp [specStep, outcomeOf, hs]
+
+
+/-! ## Confidentiality for every program -/
+
+/-- **sandbox_reads_only_visible.**  With the call check, the callback tests and the no_user_view check in place, `Reference::Get`
+    passing `sandboxed = true` and `FindVarImport` passing the frame's flag: for EVERY program, environment and fuel, every
+    attribute of a live config object whose value a sandboxed evaluation hands to the script (ghost read log of
+    `Object::GetFieldByName`, object.cpp:106-126 — reached from `a.b`, `a[b]`, method-call receivers, `*r`, `r.get()`, bare names
+    after `using`, compound assignments, callbacks of higher-order natives …) is a field that is NOT hidden from API users —
+    whatever the guard table says and whatever the natives do to the state. -/
+theorem sandbox_reads_only_visible (cfg : Cfg) (hcc : cfg.callCheck = true) (hcb : CbChecks cfg)
+    (hf : cfg.fieldCheck = true) (hr : cfg.refGetSandboxed = true) (hi : cfg.importSandboxed = true)
+    (fuel : Nat) (e : Expr) (env : Env) :
+    ∀ x ∈ (eval cfg true fuel e env).2.reads, x ∈ env.reads ∨ cfg.hidden x.1 x.2 = false :=
+  (eval_pres (R := readsOk cfg) cfg hcc hcb (logOk_readsOk cfg) (frameOk_readsOk cfg) (invokeOk_readsOk cfg hf hr)
+    (readOk_readsOk cfg hf) (by rw [hr]; exact readOk_readsOk cfg hf) (by rw [hi]; exact readOk_readsOk cfg hf)
+    (Or.inr (protOk_readsOk cfg)) fuel e).h env
+
+/-- **sandbox_reads_only_visible_pinned.**  The same at the model configured by the tables GENERATED from the source on
+    this run, for every table of natives and every no_user_view table: no hypothesis is left. -/
+theorem sandbox_reads_only_visible_pinned (native : String → Option Native) (hidden : String → String → Bool)
+    (fuel : Nat) (e : Expr) (env : Env) :
+    ∀ x ∈ (eval (genCfg native hidden) true fuel e env).2.reads, x ∈ env.reads ∨ hidden x.1 x.2 = false :=
+  sandbox_reads_only_visible (genCfg native hidden) call_and_field_checks_present.1 (callback_checks_present native hidden)
+    call_and_field_checks_present.2.1 reference_checks_present.1 import_reads_respect_sandbox fuel e env
+
+/-- **sandbox_never_reads_pinned_secrets.**  Hence, in every configuration whose no_user_view table covers the attributes the
+    property names outright (`secretAttrs`), no sandboxed program ever obtains the value of a password, password hash or
+    ticket salt of a live object through a field read. -/
+theorem sandbox_never_reads_pinned_secrets (cfg : Cfg) (hcc : cfg.callCheck = true) (hcb : CbChecks cfg)
+    (hf : cfg.fieldCheck = true) (hr : cfg.refGetSandboxed = true) (hi : cfg.importSandboxed = true)
+    (hsec : ∀ p ∈ secretAttrs, cfg.hidden p.1 p.2 = true) (fuel : Nat) (e : Expr) (env : Env) :
+    ∀ x ∈ (eval cfg true fuel e env).2.reads, x ∈ env.reads ∨ x ∉ secretAttrs := by
+  intro x hx
+  rcases sandbox_reads_only_visible cfg hcc hcb hf hr hi fuel e env x hx with h | h
+  · exact Or.inl h
+  · right
+    intro hm
+    have := hsec x hm
+    rw [h] at this
+    cases this
 
 
 /-! ## Non-vacuity -/
@@ -521,6 +647,75 @@ example : (eval exCfg true 9 (.call (.lit (.type_ "String")) [.lit (.num 1)]) ex
     (eval exCfg true 9 (.call (.lit (.type_ "String")) [.lit (.num 1)]) exEnv).2.prot = exEnv.prot := by decide
 example : specStep { kind := .events, flagged := false, outcome := .sandbox, changed := false, leak := false, matchedDespiteError := true }
     = some .sandboxedAtSite := by decide
+
+-- computational expressions: the class is not empty and not trivial — `live + null + [ "x" ]` computes a fresh array and
+-- leaves the live one alone, also UNsandboxed and with no guard and no call check at all …
+def exConcat : Expr := .binop .add (.binop .add (.index (.lit (.obj "h")) (.lit (.str "groups"))) (.lit .empty)) (.array [.lit (.str "web")])
+def exEnvH : Env := { prot := { objects := [("h", { type := "Host", attrs := [("groups", .arr ["linux"])] })] } }
+example : Computational exConcat :=
+  .binop _ (.binop _ (.index (.lit _) (.lit _)) (.lit _)) (.array (by intro e he; simp at he; subst he; exact .lit _))
+example : (eval { exCfg with guard := fun _ => false, callCheck := false } false 9
+            (.binop .add (.index (.lit (.obj "h")) (.lit (.str "groups"))) (.array [.lit (.str "web")])) exEnvH).1
+    = .ok (.arr ["linux", "web"], .ok) := by decide
+-- … while a NON-computational program in that unguarded configuration does write (the theorem is about the node class)
+example : (eval { exCfg with guard := fun _ => false, callCheck := false } true 9
+            (.setField (.lit (.obj "h")) "groups" .add (.array [.lit (.str "web")])) exEnvH).2.prot ≠ exEnvH.prot := by decide
+-- computed callees: `(false || log)("x")` is refused like `log("x")`, `(false || len)("abc")` computes; without the call
+-- check the computed callee runs the unsafe native (the theorem's hypothesis is needed)
+example : (eval exCfg true 9 (.call (.lor (.lit (.bool false)) (.lit (.fn "System#log"))) [.lit (.str "x")]) exEnv).1
+    = .error (.notSafe (.native "System#log")) := by decide
+example : (eval exCfg true 9 (.call (.lor (.lit (.bool false)) (.lit (.fn "System#len"))) [.lit (.str "abc")]) exEnv).1
+    = .ok (.num 3, .ok) := by decide
+example : (eval { exCfg with callCheck := false } true 9 (.call (.lor (.lit (.bool false)) (.lit (.fn "System#log"))) []) exEnv).2.prot.files
+    = [("log", "x")] := by decide
+
+-- higher-order natives (array-script.cpp): `[ "a" ].map(log)` and `[ "a" ].map((x) => x)` are refused, `[ "a", "b" ].map(len)`
+-- invokes `len` once per element; with the callback test taken out of `Array#map` the unsafe callback runs in the sandbox
+def exCfgH : Cfg :=
+  { exCfg with native := fun n => if n = "Array#map" then some { safe := true, run := fun _ _ p => (.ok .empty, p) } else exCfg.native n }
+example : CbChecks exCfgH := fun _ _ => rfl
+example : (eval exCfgH true 9 (.mcall (.array [.lit (.str "a")]) "map" [.lit (.fn "System#log")]) exEnv).1
+    = .error (.notSafe (.native "System#log")) := by decide
+example : (eval exCfgH true 9 (.mcall (.array [.lit (.str "a")]) "map" [.function "l" ["x"] (.var "x")]) exEnv).1
+    = .error (.notSafe (.script "l")) := by decide
+example : (eval exCfgH true 9 (.mcall (.array [.lit (.str "a"), .lit (.str "b")]) "map" [.lit (.fn "System#len")]) exEnv).2.calls
+    = [.native "System#len", .native "System#len", .native "Array#map"] := by decide
+example : (eval { exCfgH with cbCheck := fun _ => false } true 9 (.mcall (.array [.lit (.str "a")]) "map" [.lit (.fn "System#log")]) exEnv).2.prot.files
+    = [("log", "x")] := by decide
+example : (eval { exCfgH with cbCheck := fun _ => false } true 9
+            (.mcall (.array [.lit (.str "a")]) "map" [.function "l" ["x"] (.call (.lit (.fn "System#len")) [.var "x"])]) exEnv).2.calls
+    = [.native "System#len", .script "l", .native "Array#map"] := by decide
+
+/-- **callback_check_is_necessary.**  Take the callback test out of `Array#map` (array-script.cpp:111-112) and
+    noninterference is false although every node guard and the call check are in place: `[ "a" ].map(log)` runs the
+    unflagged native inside the sandbox.  So the model is sensitive to exactly the per-native test that
+    `callback_checks_present` reads from the source. -/
+theorem callback_check_is_necessary :
+    ¬ (∀ (fuel : Nat) (e : Expr) (env : Env),
+        (eval { exCfgH with cbCheck := fun _ => false } true fuel e env).2.prot = env.prot) := by
+  intro h
+  have := h 9 (.mcall (.array [.lit (.str "a")]) "map" [.lit (.fn "System#log")]) exEnv
+  revert this
+  decide
+
+-- pinned secrets: a successful read of the ticket salt is a violation even if the implementation reports the field as visible;
+-- the hypothesis of `pinned_secrets_unreadable` is satisfiable
+example : specStep { kind := .field, flagged := false || isSecretAttr "ApiListener" "ticket_salt", outcome := .ok, changed := false, leak := false }
+    = some .hiddenFieldUnreadable := by decide
+example : specStep { kind := .field, flagged := false || isSecretAttr "Host" "display_name", outcome := .ok, changed := false, leak := false } = none := by decide
+example : ∀ p ∈ secretAttrs, ({ exCfg with hidden := fun t f => isSecretAttr t f }).hidden p.1 p.2 = true := by decide
+
+-- the ghost read log is not vacuous: a visible attribute read sandboxed is logged, a hidden one is logged when read
+-- UNsandboxed, and each of the three hypotheses of `sandbox_reads_only_visible` is needed
+example : (eval exCfg true 9 (.index (.lit (.obj "h")) (.lit (.str "groups"))) exEnvH).2.reads = [("Host", "groups")] := by decide
+example : (eval exCfg false 9 (.index (.lit (.obj "u")) (.lit (.str "password"))) exEnv).2.reads = [("ApiUser", "password")] := by decide
+example : (eval exCfg true 9 (.index (.lit (.obj "u")) (.lit (.str "password"))) exEnv).2.reads = [] := by decide
+example : (eval { exCfg with fieldCheck := false } true 9 (.index (.lit (.obj "u")) (.lit (.str "password"))) exEnv).2.reads
+    = [("ApiUser", "password")] := by decide
+example : (eval { exCfg with refGetSandboxed := false } true 9
+            (.deref (.ref (.index (.lit (.obj "u")) (.lit (.str "password"))))) exEnv).2.reads = [("ApiUser", "password")] := by decide
+example : (eval { exCfg with importSandboxed := false } true 9 (.varIn [.lit (.obj "u")] "password") exEnv).2.reads
+    = [("ApiUser", "password")] := by decide
 
 -- the specification predicate rejects wrong traces (it is not vacuous)
 example : specTrace [{ kind := .program, flagged := false, outcome := .ok, changed := false, leak := false },
